@@ -143,4 +143,112 @@ theorem allBlocks_mem (fuel : Nat) (ts : List Tok) : ∀ b ∈ allBlocks fuel ts
 theorem EscapedOK.of_mem {a b : List Tok} (h : EscapedOK a) (hm : ∀ t ∈ b, t ∈ a) : EscapedOK b :=
   fun t ht => h t (hm t ht)
 
+/-! ### The metadata-only scanner (`next_metadata_block`) -/
+
+theorem runAt_suffix {off : Nat} {a b : List Tok} (h : RunAt off (a ++ b)) : ∃ o, RunAt o b :=
+  ⟨_, ((runAt_append off a b).mp h).2⟩
+
+theorem runAt_prefix {off : Nat} {a b : List Tok} (h : RunAt off (a ++ b)) : RunAt off a :=
+  ((runAt_append off a b).mp h).1
+
+theorem seekMeta_spec (last : TK) (ts ts' : List Tok) (h : seekMeta last ts = some ts') :
+    (∃ pre, ts = pre ++ ts') ∧ ∃ t l, ts' = t :: l ∧ t.kind = .metaStart := by
+  induction ts generalizing last with
+  | nil => simp [seekMeta] at h
+  | cons t rest ih =>
+    unfold seekMeta at h
+    split at h
+    · rename_i hc
+      simp only [Option.some.injEq] at h
+      subst h
+      simp only [Bool.and_eq_true, beq_iff_eq] at hc
+      exact ⟨⟨[], rfl⟩, t, rest, rfl, hc.2⟩
+    · obtain ⟨⟨pre, hp⟩, h2⟩ := ih _ h
+      exact ⟨⟨t :: pre, by rw [hp]; rfl⟩, h2⟩
+
+/-- every `>>` line the metadata scanner cuts out is a non-empty run of adjacent tokens -/
+theorem metaBlocks_wf (fuel : Nat) (last : TK) (ts : List Tok) (off : Nat) (h : RunAt off ts) :
+    ∀ b ∈ metaBlocks fuel last ts, WF b := by
+  induction fuel generalizing last ts off with
+  | zero => simp [metaBlocks]
+  | succ fuel ih =>
+    unfold metaBlocks
+    split
+    · simp
+    · rename_i ts' hs
+      obtain ⟨⟨pre, hp⟩, t, l, htl, hk⟩ := seekMeta_spec _ _ _ hs
+      rw [hp] at h
+      obtain ⟨o, ho⟩ := runAt_suffix h
+      have hsplit := List.takeWhile_append_dropWhile (p := fun t : Tok => t.kind != .newline) (l := ts')
+      intro b hb
+      simp only [List.mem_cons] at hb
+      rcases hb with rfl | hb
+      · have hr : RunAt o (ts'.takeWhile (fun t => t.kind != .newline)) := by
+          rw [← hsplit] at ho; exact runAt_prefix ho
+        refine ⟨?_, hr.base⟩
+        rw [htl, List.takeWhile_cons]
+        simp [hk]
+      · rw [← hsplit] at ho
+        obtain ⟨o2, ho2⟩ := runAt_suffix ho
+        have h3 : ts'.dropWhile (fun t => t.kind != .newline) =
+            (ts'.dropWhile (fun t => t.kind != .newline)).take 1 ++
+              (ts'.dropWhile (fun t => t.kind != .newline)).drop 1 := (List.take_append_drop 1 _).symm
+        rw [h3] at ho2
+        obtain ⟨o3, ho3⟩ := runAt_suffix ho2
+        exact ih _ _ o3 ho3 b hb
+
+theorem runMetaBlock_no_panic (cs : CharSpec) (ext : Ext) (b : List Tok) (evs : Array (Ev α))
+    (hw : WF b) : (runMetaBlock cs ext b evs none).2 = none := by
+  have g0 : G b ext (⟨b, 0, ext, cs, evs, none⟩ : BP α) := ⟨rfl, rfl, rfl, Nat.zero_le _⟩
+  have hne : b.isEmpty = false := by
+    have := hw.ne
+    cases b <;> simp_all
+  have key : Sat (do
+      if b.isEmpty then panicWith "BlockParser::new: empty tokens"
+      match ← metadataEntry (α := α) with
+      | some ev =>
+        pushEv ev
+        let s ← get
+        if s.cur ≠ s.toks.length then panicWith "Block tokens not parsed"
+      | none => pure ()) ⟨b, 0, ext, cs, evs, none⟩
+      (fun _ s' => s'.panic = none) := by
+    simp only [hne, Bool.false_eq_true, if_false]
+    refine Sat.bind (Sat.mono (metadataEntry_sat hw g0) ?_)
+    rintro r s1 ⟨g1, c1⟩
+    cases r with
+    | none => exact Sat.pure g1.panic
+    | some ev =>
+      refine Sat.bind (Sat.pushEv ?_)
+      refine Sat.bind (Sat.get ?_)
+      have : s1.cur = s1.toks.length := by rw [g1.toks]; exact c1 rfl
+      simp only [this, ne_eq, not_true_eq_false, if_false]
+      exact Sat.pure g1.panic
+  exact key
+
+theorem foldl_runMetaBlock_no_panic (cs : CharSpec) (ext : Ext) (blocks : List (List Tok))
+    (evs0 : Array (Ev α)) (h : ∀ b ∈ blocks, WF b) :
+    (blocks.foldl (fun acc b => runMetaBlock (α := α) cs ext b acc.1 acc.2) (evs0, none)).2 = none := by
+  induction blocks generalizing evs0 with
+  | nil => rfl
+  | cons b bs ih =>
+    rw [List.foldl_cons]
+    have h1 := runMetaBlock_no_panic (α := α) cs ext b evs0 (h b (by simp))
+    have e1 : runMetaBlock (α := α) cs ext b evs0 none =
+        ((runMetaBlock (α := α) cs ext b evs0 none).1, none) := by
+      apply Prod.ext
+      · rfl
+      · exact h1
+    show (bs.foldl _ (runMetaBlock (α := α) cs ext b evs0 none)).2 = none
+    rw [e1]
+    exact ih _ (fun b' hb' => h b' (by simp [hb']))
+
+/-- the metadata-only pull parser (`into_meta_iter`) never reaches a panic site -/
+theorem pullMetaEvents_no_panic (cs : CharSpec) (ext : Ext) (input : List Char) :
+    (pullMetaEvents (α := α) cs ext input).2 = none := by
+  unfold pullMetaEvents
+  split
+  · rfl
+  · apply foldl_runMetaBlock_no_panic
+    exact metaBlocks_wf _ _ _ 0 ⟨lexFrom_chain cs 0 input, lexFrom_escapedOK cs 0 input⟩
+
 end Cook
